@@ -3,6 +3,8 @@ have been observed for a 'held' verdict, and how the evidence is written."""
 from vdriver import Job, NCPU
 
 ENGINES = {
+    'h_file': dict(tulz=['fs'], setup_variants=['asan'], kind='byte-vector + position model for tulz::File in a private directory, cross-checked with std::filesystem, ASan/UBSan'),
+    'h_path': dict(tulz=['fs'], setup_variants=['asan'], kind='generated directory trees vs std::filesystem, path-string identities, DirectoryVisitor cwd checks, ASan/UBSan'),
     'h_locale': dict(tulz=['locale'], setup_variants=['asan'],
                      kind='exhaustive table combinations + hostile/random strings against an independent parse-and-lookup oracle, ASan/UBSan, valgrind sample'),
     'h_observable': dict(tulz=['none'], setup_variants=['asan'],
@@ -377,3 +379,58 @@ SPECS['C19'] = dict(
     manifest=dict(engine='h_locale', text='Exhaustive enumeration of every table language x country x charset form plus tens of thousands of hostile and random strings against an independent oracle, under ASan/UBSan '
                   '(thorough: -O0, clang and a valgrind memcheck sample for uninitialised fields).', note=SAN_NOTE,
                   technique='runtime monitoring: exhaustive + hostile input sweep against an independent table oracle under ASan/UBSan (valgrind memcheck sample)'))
+
+
+# ----------------------------------------------------------------------------- File (C17), Path (C18)
+
+def fs_jobs(engine, prop, cases, big=None):
+    def mk(tier, seed):
+        q = tier == 'quick'
+        jobs = []
+        for vi, variant in enumerate(('asan',) if q else ('asan', 'asan-clang')):
+            n = cases[0] if q else (cases[1] if vi == 0 else cases[1] // 10)
+            for frm, cnt in split(n, NCPU):
+                jobs.append(Job(engine, variant, pseed(seed, prop, vi), frm, cnt, label=variant))
+        if not q and big:
+            for frm, cnt in split(big[0], 8):
+                jobs.append(Job(engine, 'asan', pseed(seed, prop, 7), 10 ** 7 + frm, cnt, list(big[1]), label='large'))
+        return jobs
+    return mk
+
+
+SPECS['C17'] = dict(
+    title='File round-trips bytes exactly',
+    jobs=fs_jobs('h_file', 'C17', (4000, 120000), big=(64, ['maxlen=8388608'])),
+    require={'any': {'files': 2000, 'filesWithNul': 500, 'filesWith0xFF': 500, 'filesWithCRLF': 200, 'emptyFiles': 100, 'appendSessions': 1000, 'sizeCalls': 3000, 'seeks': 3000, 'errorProbes': 500}},
+    evidence=lambda agg, samples, distinct, tier: cov(
+        agg.get('files', 0), distinct,
+        'case = one file: seeded content (random bytes, hostile mix of NUL/0xFF/0x1A/CR/LF, all-0xFF, CRLF runs, text with NUL; length 0-64 KiB, thorough up to 8 MiB) split into successive write() calls through '
+        'the three overloads (raw with element size 1 and 2, Array<byte>, std::string) in Write/WriteText over an optional longer pre-existing file (truncation), then 0-2 Append/AppendText sessions (also onto a '
+        'missing file), verified on disk with std::filesystem/ifstream after every close; then read in Read and ReadText mode through read(), readStr() and read(buffer,size,count) interleaved with seek '
+        '(all origins)/tell/size against a position model; NotFound / NotFile probes. non-trivial = non-empty file; distinct = distinct (content, split, mode)',
+        samples, observed=pick(agg, 'files', 'bytesWritten', 'bytesRead', 'writeCalls', 'appendSessions', 'truncations', 'seeks', 'sizeCalls', 'readCalls', 'errorProbes',
+                               'emptyFiles', 'filesWithNul', 'filesWith0xFF', 'filesWithCRLF', 'filesOver1MB', 'nontrivialCases'),
+        content_classes=agg.get('contentClasses', {}), modes=agg.get('modes', {})),
+    assumptions=['POSIX only: text and binary modes are byte-identical here; the Windows CRLF translation branch is never executed',
+                 'reading through a stream opened for write/append and writing into a missing directory are outside the statement and not done'],
+    manifest=dict(engine='h_file', text='Round-trip of generated hostile byte strings through the real File on a real filesystem against a byte-vector/position model and std::filesystem, under ASan/UBSan.',
+                  note=SAN_NOTE, technique='runtime monitoring: reference model + filesystem cross-check under ASan/UBSan'))
+
+SPECS['C18'] = dict(
+    title='Path agrees with the filesystem',
+    jobs=fs_jobs('h_path', 'C18', (1600, 40000), big=(40, ['maxfile=4000000'])),
+    require={'any': {'trees': 500, 'nodes': 5000, 'emptyDirectories': 200, 'relativeQueries': 3000, 'trailingSeparatorQueries': 500, 'missingPathProbes': 1000,
+                     'identitiesChecked': 50000, 'visitors': 500, 'nestedVisitors': 200}},
+    evidence=lambda agg, samples, distinct, tier: cov(
+        agg.get('trees', 0) + agg.get('pathStrings', 0), distinct,
+        'even cases: a generated tree (depth <= 4, fan-out <= 6, empty directories, files of 0 B - 100 KB, thorough a few MB; names with spaces, dots, leading dots, UTF-8, arbitrary high bytes, 200-byte names; '
+        'no symlinks) compared node by node with std::filesystem through absolute paths, relative paths and trailing-separator paths: exists/isFile/isDirectory/size (directory = sum of regular files beneath)/'
+        'listChildren (multiset equality, no "." / ".."), missing paths and their exceptions, nested DirectoryVisitors (absolute, relative, empty path) with cwd before/inside/after. odd cases: 200 path strings '
+        'each: join/getPathName/getParentDirectory identities for d from segments and "/" separators and separator-free n, join with an absolute path, arbitrary strings for memory safety only. '
+        'distinct = distinct trees + distinct string triples',
+        samples, observed=pick(agg, 'trees', 'nodes', 'directories', 'files', 'emptyDirectories', 'nodeQueries', 'relativeQueries', 'trailingSeparatorQueries', 'missingPathProbes', 'oddNames', 'bytesInFiles',
+                               'pathStrings', 'identitiesChecked', 'absoluteJoins', 'arbitraryStrings', 'visitors', 'nestedVisitors')),
+    assumptions=['identities are judged for directories written with "/" separators (Path::Separator); strings with backslashes, the empty string and lone separators are only required not to trip the sanitizers',
+                 'runs as a user who can read every generated entry (exists() is implemented with fopen)'],
+    manifest=dict(engine='h_path', text='Generated directory trees compared node by node with std::filesystem, string identities exactly as stated over generated path strings, working directory observed around nested '
+                  'DirectoryVisitors, under ASan/UBSan.', note=SAN_NOTE, technique='runtime monitoring: differential check against std::filesystem + stated identities under ASan/UBSan'))
